@@ -106,8 +106,10 @@ def _validate(ctx, hs, cases, label):
             pos += len(h)
         else:
             raise vlib.Inconclusive("TLC rejected %s beyond its last event" % label)
-        if rounds > 12:
-            raise vlib.Inconclusive("%s: more than 12 rejected histories" % label)
+        if len(rejected) >= 6:
+            # enough counterexamples; the histories behind them stay unvalidated
+            ctx.notes.append("%s: stopped after 6 rejected histories, %d histories not validated" % (label, len(todo)))
+            break
     return accepted, rejected
 
 
